@@ -458,6 +458,10 @@ PROPS["C06"]["claim"] += (" NO ACYCLICITY HYPOTHESIS NEEDED (never_internal_erro
     "runLoop_no_bug re-proved under REGIONAL acyclicity (only marked builds need a rank; Work::run never marks a new build), which a successful want phase "
     "provides (rank = number of ordering ancestors) - so for every graph, cyclic or not, run::build never ends in the BUG panic and success means every wanted step is Done.")
 PROPS["C03"]["claim"] += (" The round-trip theorems no longer assume an acyclic graph (a successful first invocation implies it for what it touched).")
+PROPS["C08"]["props"] = ["C08", "C08H"]
+PROPS["C08"]["claim"] += (" HISTORY LEVEL (record_follows_its_outputs, lastRec_spec; Props/C08H): for any log whatever wrote it, a step of the CURRENT manifest is "
+    "given at start-up the dependency list and signature of the LAST record all of whose outputs it produces now; records naming an output it does not "
+    "produce now neither count nor shadow it.")
 PROPS["C09"]["claim"] += (" ACROSS INVOCATIONS, FOR EVERY LOG (Lemmas/WorkDisc): start-up (applyLog, records WITH dependency lists) only interns source "
     "files and attaches to each step exactly the dependency list and signature of the LATEST record attributed to it "
     "(remembered_by_every_later_invocation, nothing_remembered_without_record); a success's record is the latest until the next one "
